@@ -152,6 +152,10 @@ class Session(object):
                         if nm.endswith("_RE"):
                             self.regex_consts.append((mi, nm))
 
+    def const_symbol(self, mi, nm):
+        """module constants are per module: two modules may bind the same name to different objects"""
+        return "const_%s_%s" % (mi.relpath[:-3].replace("/", "_"), nm)
+
     def regex_facts(self):
         """structural facts read mechanically from the sre parse tree of the REAL compiled patterns (imported from the repo
         under verification): which capture groups always participate in a match.  group_mandatory(P, n) axioms."""
@@ -208,7 +212,7 @@ class Session(object):
                         if av[2]:
                             walk(av[2], True)
             walk(tree, False)
-            c = z3.Const("const_" + nm, cx.Obj)
+            c = z3.Const(self.const_symbol(mi, nm), cx.Obj)
             mand = [g for g in range(1, pat.groups + 1) if g not in optional]
             self.regex_info[nm] = {"pattern": pat.pattern[:200], "groups": pat.groups, "mandatory_groups": mand}
             cx.axiom("regex.group0.%s" % nm, gm(c, 0))
